@@ -112,7 +112,7 @@ InsRound ==
            vA   == okA /\ idxI < N /\ absT[idxI] = EmptyLeaf /\ proof = PathT(absT, idxI)
            \* deviations from the honest prover are counted INDEPENDENTLY: an out-of-range start was counted at Begin; here a slot
            \* deviates by its item or by a path that is not the genuine one of the leaf the index ALIASES to (index mod 2^Depth)
-           dev == (IF item \in Vals THEN 0 ELSE 1) + (IF proof = PathT(aliasT, idxI % N) THEN 0 ELSE 1)
+           dev == IF proof = PathT(aliasT, idxI % N) THEN 0 ELSE 1      \* any field element (0 included) is a legitimate commitment
        IN /\ okC' = acc
           /\ cur' = (IF acc THEN InsRoundOut(idxF, item, proof) ELSE cur)
           /\ okA' = vA
